@@ -77,6 +77,18 @@ class GuidTypedTree(TypedTree):
         return hash(data)
 
 
+class HDict(dict):
+    """a dict subclass that is hashable by content (a frozendict-like record): DictWrapper is documented to key a
+    node by the IDENTITY of the wrapped dict all the same"""
+
+    def __hash__(self):
+        return hash(tuple(sorted(self.items())))
+
+
+# ints whose hash is not the int itself: hash(-1) == hash(-2) == -2, hash(n) == n % (2**61 - 1) for big n
+# ("~f" is the hash twin of "f"; it only occurs as NEW data in operation histories, never in a generated forest)
+_ODD_INTS = {"e": 2**62 + 11, "f": -1, "~f": -2}
+
 FLAVOURS = ["str", "int", "tuple", "dc", "dictwrap", "obj_cb", "obj_sub", "dict_explicit", "obj_fwd", "dict_cb"]
 
 
@@ -113,6 +125,8 @@ class Flavour:
         if n == "str":
             return label
         if n == "int":
+            if label in _ODD_INTS:
+                return _ODD_INTS[label]
             return ALPHA.index(label) + 1 if label in ALPHA else (abs(hash(label)) % 10**6) + 100
         if n == "tuple":
             return tuple([label])
@@ -122,7 +136,7 @@ class Flavour:
             shared = self.pool.get(label)
             # labels sharing the first letter get dicts of EQUAL CONTENT that are distinct objects: DictWrapper is
             # documented to compare (and hash) by the identity of the wrapped dict, not by its content
-            d = shared._dict if shared is not None else {"name": label[:1]}
+            d = shared._dict if shared is not None else (HDict(name=label[:1]) if label[:1] == "a" else {"name": label[:1]})
             return DictWrapper(d)
         if n in ("obj_cb", "obj_sub", "obj_fwd"):
             return Person("g-" + label, label)
